@@ -1030,6 +1030,9 @@ func (e *Engine) eval(fr *frame, v ssa.Value) Value {
 			}
 			pick := it.I
 			if e.symOrder && len(it.Keys)-it.I > 1 {
+				if r, ok := in.Iter.(*ssa.Range); ok && isUnderTest(fr.fn) && !isHarnessFunc(fr.fn) {
+					e.count("maprange@"+e.prog.Fset.Position(r.Pos()).String(), 1)
+				}
 				pick = it.I + e.chooseN(len(it.Keys)-it.I)
 				e.draws = append(e.draws, &Draw{Kind: "order", Name: "mapnext@" + fr.fn.Name(), Val: pick - it.I})
 			}
